@@ -3,7 +3,7 @@ import vlib
 CFG = dict(
     imports=["From Verif.C25 Require Import Model Spec.", "Open Scope N_scope."],
     checker="check_case",
-    n=dict(quick=500, thorough=12000),
+    n=dict(quick=500, thorough=6000),
     driver_args=lambda ctx, n, seed: ["-n", n, "-seed", seed, "-nclient", max(40, n // 12), "-nbulk", max(8, n // 60)],
     rule="op sequences over 6 keys x 3 values against the real DedupeBuffer with a recording sink: protocol-shaped runs "
          "(changing datastore, snapshot in batches, in-sync, deltas, 2-4 connections, restarts also mid-snapshot), "
